@@ -155,6 +155,7 @@ class FakeSock:
 
 class StdinServer(BaseComponent):
     channel = 'web'
+    __sock = None
 
     def __init__(self, encoding='utf-8', channel=channel):
         super().__init__(channel=channel)
@@ -182,7 +183,11 @@ class StdinServer(BaseComponent):
 
     @handler('read', channel='stdin')
     def read(self, data):
-        self.fire(read(FakeSock(), data))
+        # one pseudo socket for the whole stream: the HTTP component keeps its
+        # parser per socket, a request may arrive in more than one read
+        if self.__sock is None:
+            self.__sock = FakeSock()
+        self.fire(read(self.__sock, data))
 
     @handler('write')
     def write(self, sock, data):
